@@ -36,7 +36,14 @@ func (lam *Lambda) Call(s *Scope, args List, depth int) (result Object) {
 	// of the caller. An inline lambda is called where it is defined.
 	ss.call = !lam.Macro && !lam.inline
 	if lam.Closure != nil {
-		ss.parents = append(ss.parents, lam.Closure)
+		if lam.Macro {
+			ss.parents = append(ss.parents, lam.Closure)
+		} else {
+			// The free variables of a function are the bindings in place
+			// where the function was created so those are looked up before
+			// the bindings of the caller.
+			ss.parents = []*Scope{lam.Closure, s}
+		}
 		ss.Macro = lam.Closure.Macro
 	} else if s.Keep { // flavors instance uses this
 		ss.parents = append(ss.parents, s)
